@@ -1,7 +1,7 @@
 (* C17: the constants the model takes from the C text, checked against the
    tables regenerated from /repo on every run (coq/Gen/PendingTables.v, by
    tools/gen/pending.py: the C compiler runs the lifted function body / macro). *)
-From Coq Require Import List NArith Bool.
+From Coq Require Import List NArith ZArith Bool.
 Import ListNotations.
 From DV Require Import Gen.PendingTables PendingCall.Pending.
 Local Open Scope N_scope.
@@ -21,3 +21,8 @@ Proof. vm_compute. reflexivity. Qed.
 (* the table keeps its four buckets until a 12th entry is added *)
 Lemma tie_rebuild : hash_rebuild_threshold = 12.
 Proof. vm_compute. reflexivity. Qed.
+
+(* _DBUS_DEFAULT_TIMEOUT_VALUE and DBUS_TIMEOUT_INFINITE as the C compiler evaluates them *)
+From DV Require Import PendingCall.BlockTime.
+Lemma tie_timeouts : Z.of_N c_default_timeout_value = default_timeout /\ Z.of_N c_timeout_infinite = timeout_infinite.
+Proof. vm_compute. split; reflexivity. Qed.
